@@ -1,89 +1,175 @@
-(* C02 - Cut commits to its clause and ends the call.
+(* C02 - the textbook law of cut, for the reference search Spec/SpecCut.v:
 
-   The reference search Spec/SpecCut.v says what `!` means: the search continues, and what comes
-   back carries the signal Cut - the alternatives of everything up to the clause body are
-   abandoned (the goals left of the cut are not retried, C02_reference_cut_signals), the call
-   that chose the clause tries no later clause and ABSORBS the signal, so its caller and its
-   siblings never see it (C02_reference_call_absorbs); an answer that leaves a conjunction in
-   which a cut ran is the conjunction's last ("no answers beyond the one being derived").
+       g1, !, rest     is     once(g1), rest     and the call that chose the clause is committed.
 
-   PROVED: the engine yields exactly the answers of that reference search, for every program
-   (C02_refines = Proofs/RefineCut.refines_cut), and - directly on the machine, for all
-   programs - the four clauses of the property below. *)
-From Suiron Require Import Model.Term Model.Subst Model.Rename Model.Solve Spec.SpecSolve Spec.SpecCut Spec.Refine
-  Proofs.SolveDead Proofs.SolveCut Proofs.RefineCut.
+   C02_first_answer (A): a goal without `!` run with a continuation that always stops the search
+     is: the FIRST answer of the goal (the `halt1` search, what not(..) and time(..) use), then the
+     continuation called once on it, with the flag false, in the world reached at that point; the
+     continuation's result - answers, world and signal - is the result, unchanged (the signal is
+     bumped by kbump on the way into each call and un-bumped by after_body on the way out).  No
+     answer: the continuation is never called, the result is ([], world reached, Go).
+   C02_cut_is_once (B): `g1, !, rest` with g1 cut-free: no answer of g1 -> ([], w1, Go) (the cut is
+     not reached; NOT a cut signal); first answer s1 of g1 in w1 -> what `rest` gives from (s1, w1)
+     (`and_then`: `rest` continued by `kwrap true k`; k itself, told of the cut, when rest = []),
+     the signal made a Cut by join0.  g1 is never retried.
+   C02_cut_commits_the_call_reference (C): a clause with that body whose head unifies: g1 without
+     answer -> the call goes on with clause idx+1 from the world reached; otherwise the call
+     returns what `rest` returns from the first answer of g1, the signal leaving the call
+     (leave_call: the clause's own Cut 0 is absorbed - Go -, Cut (S m) -> Cut m, Halt -> Halt), and
+     NO later clause is consulted: the result is the same for every clause count n' > idx.
+   C02_cut_commits_the_call_kb: the same, the clause given as stored in the knowledge base
+     (renaming apart keeps the shape `g1, !, rest` and cut-freeness). *)
+From Suiron Require Import Model.Term Model.Subst Model.Builtins Model.Rename Model.Unify Model.Solve
+  Spec.SpecCut Proofs.RenameProofs Proofs.CutOnce.
+Open Scope N_scope.
 
-Theorem C02_refines : forall kb bf q w fs R nd w1 m F R',
-  canswers kb bf fs q w = Ok R ->
-  make_base_node kb (GCall q) w = Ok (nd, w1) ->
-  ask_all kb bf m F nd w1 = Ok R' -> R' = R.
-Proof. exact refines_cut. Qed.
-
-(* the reference: whatever follows a cut, the search of `!` ends with a signal other than Go,
-   so no alternative to its left - and no later clause - is tried *)
-Theorem C02_reference_cut_signals : forall kb bf f s w k a w' g,
-  csolve kb bf (S f) (GBip n_cut None) s w k = Ok (a, w', g) -> g <> Go.
-Proof.
-  intros kb bf f s w k a w' g H. rewrite csolve_S in H. unfold csolve_body in H.
-  change (run_bip bf n_cut None s) with (Ok (mkBipResult (Some s) [] true)) in H. cbn [bind br_sol br_cut br_out] in H.
-  destruct (k s (w_print w []) true) as [[[a1 w1] g1]| |]; cbn [bind mark] in H; try discriminate.
-  injection H as <- <- <-. apply join0_not_go.
-Qed.
-
-(* the reference: leaving a clause body in which a cut ran ends the call (the later clauses,
-   `rest`, are not consulted) and the caller sees Go: the cut is local to the call *)
-Theorem C02_reference_call_absorbs : forall a w rest, after_body (a, w, Cut 0) rest = Ok (a, w, Go).
+(* the vocabulary of the statements (Proofs/CutOnce.v) *)
+Example C02once_cutfree_bip : forall fn ts, cutfree (GBip fn ts) = negb (str_eqb fn n_cut).
 Proof. reflexivity. Qed.
+Example C02once_cutfree_op : forall k gs, cutfree (GOp k gs) = forallb cutfree gs.
+Proof. exact cutfree_op. Qed.
+Example C02once_cutfree_call : forall t, cutfree (GCall t) = true.
+Proof. reflexivity. Qed.
+Example C02once_and_then_nil : forall kb bf f s w k, and_then kb bf f [] s w k = k s w true.
+Proof. reflexivity. Qed.
+Example C02once_and_then_cons : forall kb bf f g r s w k,
+  and_then kb bf f (g :: r) s w k = csolve kb bf f (GOp OAnd (g :: r)) s w (kwrap true k).
+Proof. reflexivity. Qed.
+Example C02once_leave_call : leave_call (Cut 0) = Go /\ (forall m, leave_call (Cut (S m)) = Cut m) /\ leave_call Halt = Halt.
+Proof. repeat split. Qed.
 
-(* Every node a cut passes through on its way up - the cut itself, every enclosing
-   conjunction / disjunction / not / time node - is committed (no_backtracking set). *)
-Theorem C02_cut_commits : forall kb bf fuel nd w nd' r w',
-  next kb bf fuel nd w = Ok (nd', r, true, w') -> node_nobt nd' = true.
-Proof. exact cut_commits. Qed.
+Theorem C02_first_answer : forall kb bf fuel g s w k a w' sg,
+  cutfree g = true ->
+  (forall s1 w1 c a1 w2 sg1, k s1 w1 c = Ok (a1, w2, sg1) -> sg1 <> Go) ->
+  csolve kb bf fuel g s w k = Ok (a, w', sg) ->
+  match csolve kb bf fuel g s w halt1 with
+  | Ok ([], w1, sg1) => a = [] /\ w' = w1 /\ sg = Go /\ sg1 = Go
+  | Ok ([s1], w1, Halt) => k s1 w1 false = Ok (a, w', sg)
+  | _ => False
+  end.
+Proof. exact first_answer. Qed.
 
-(* A committed node yields nothing beyond the answer being derived when the cut ran: the
-   goals to the left of the cut are never re-tried, later alternatives are never tried. *)
-Theorem C02_nothing_after_the_cut : forall kb bf fuel nd w nd' r w',
-  next kb bf fuel nd w = Ok (nd', r, true, w') ->
-  forall m fuel2 w2 rs nd2 w3,
-    ask_again kb bf fuel2 m nd' w2 = Ok (rs, nd2, w3) -> Forall (fun x => x = None) rs /\ w3 = w2.
-Proof. exact cut_then_nothing_more. Qed.
+(* the first answer does not depend on the fuel of the run that finds it *)
+Theorem C02_first_answer_fuel : forall kb bf f1 f2 g s w h1 h2,
+  csolve kb bf f1 g s w halt1 = Ok h1 -> csolve kb bf f2 g s w halt1 = Ok h2 -> h1 = h2.
+Proof. exact first_answer_fuel. Qed.
 
-(* The call that chose the clause: when a cut runs in the clause body, the call returns what
-   the body returned (the answer being derived, or failure - no later clause is tried even
-   when the goals after the cut failed) and is committed itself. *)
-Theorem C02_the_call_is_committed : forall kb bf f t ss c0 idx n w c1 sol w1 nd' r c w',
-  next kb bf f c0 w = Ok (c1, sol, true, w1) ->
-  next kb bf (S f) (NCall t ss false (Some c0) idx n) w = Ok (nd', r, c, w') ->
-  node_nobt nd' = true /\ c = false /\ r = sol.
+Theorem C02_cut_is_once : forall kb bf fuel g1 rest s w k a w' sg,
+  cutfree g1 = true ->
+  csolve kb bf fuel (GOp OAnd (g1 :: GBip n_cut None :: rest)) s w k = Ok (a, w', sg) ->
+  match csolve kb bf fuel g1 s w halt1 with
+  | Ok ([], w1, _) => a = [] /\ w' = w1 /\ sg = Go
+  | Ok ([s1], w1, Halt) =>
+      exists sg0, and_then kb bf fuel rest s1 w1 k = Ok (a, w', sg0) /\ sg = join0 sg0
+  | _ => False
+  end.
+Proof. exact cut_is_once. Qed.
+
+Theorem C02_cut_commits_the_call_reference : forall kb bf f t s key idx n w k rl ctr s' g1 rest R,
+  (n <=? idx) = false ->
+  get_rule kb key idx (next_id w) = Ok (rl, ctr) ->
+  unify bf (r_head rl) t s = Ok (Some s') ->
+  r_body rl = GOp OAnd (g1 :: GBip n_cut None :: rest) ->
+  cutfree g1 = true ->
+  cclauses kb bf (S f) t s key idx n w k = Ok R ->
+  match csolve kb bf f g1 s' (w_set_id w ctr) halt1 with
+  | Ok ([], w2, _) => cclauses kb bf f t s key (idx + 1) n w2 k = Ok R
+  | Ok ([s1], w2, Halt) =>
+      exists a w' sg0,
+        and_then kb bf f rest s1 w2 (kbump k) = Ok (a, w', sg0) /\
+        R = (a, w', leave_call (join0 sg0)) /\
+        forall n', (n' <=? idx) = false -> cclauses kb bf (S f) t s key idx n' w k = Ok R
+  | _ => False
+  end.
 Proof. exact cut_commits_the_call. Qed.
 
-(* A cut never affects the caller of that call or any sibling: a call reports no cut. *)
-Theorem C02_cut_is_local : forall kb bf fuel t ss nobt child idx n w nd' r c w',
-  next kb bf fuel (NCall t ss nobt child idx n) w = Ok (nd', r, c, w') -> c = false.
-Proof. exact call_absorbs_cut. Qed.
+Theorem C02_cut_commits_the_call_kb : forall kb bf f t s key idx n w k rules r0 g1 rest R,
+  kb_get kb key = Some rules -> nth_error rules (N.to_nat idx) = Some r0 ->
+  r_body r0 = GOp OAnd (g1 :: GBip n_cut None :: rest) -> cutfree g1 = true ->
+  (n <=? idx) = false ->
+  cclauses kb bf (S f) t s key idx n w k = Ok R ->
+  exists rl ctr g1' rest',
+    get_rule kb key idx (next_id w) = Ok (rl, ctr) /\
+    r_body rl = GOp OAnd (g1' :: GBip n_cut None :: rest') /\
+    erase_goal g1' = erase_goal g1 /\ map erase_goal rest' = map erase_goal rest /\
+    match unify bf (r_head rl) t s with
+    | Ok None => cclauses kb bf f t s key (idx + 1) n (w_set_id (w_set_id w ctr) (next_id w)) k = Ok R
+    | Ok (Some s') =>
+        match csolve kb bf f g1' s' (w_set_id w ctr) halt1 with
+        | Ok ([], w2, _) => cclauses kb bf f t s key (idx + 1) n w2 k = Ok R
+        | Ok ([s1], w2, Halt) =>
+            exists a w' sg0,
+              and_then kb bf f rest' s1 w2 (kbump k) = Ok (a, w', sg0) /\
+              R = (a, w', leave_call (join0 sg0)) /\
+              forall n', (n' <=? idx) = false -> cclauses kb bf (S f) t s key idx n' w k = Ok R
+        | _ => False
+        end
+    | _ => False
+    end.
+Proof. exact cut_commits_the_call_kb. Qed.
 
-(* non-vacuity: a(1) :- b(0), !, fail.  a(2).  b(0).  |- a($X) has no answer
-   (the defect repaired by commit 782f5c0 answered a(2)) *)
-Definition C02_demo : bool :=
-  let kb := [([97; 47; 49]%N, [mkRule (TComplex [TAtom [97%N]; TInt 1])
-                                 (GOp OAnd [GCall (TComplex [TAtom [98%N]; TInt 0]); GBip n_cut None; GBip n_fail None]);
-                               mkRule (TComplex [TAtom [97%N]; TInt 2]) GNil]);
-             ([98; 47; 49]%N, [mkRule (TComplex [TAtom [98%N]; TInt 0]) GNil])] in
-  match make_base_node kb (GCall (TComplex [TAtom [97%N]; TVar 1 [36; 88]%N])) (mkWorld 1 false None []) with
-  | Ok (nd, w) => match next kb 30 30 nd w with Ok (nd1, None, false, _) => node_nobt nd1 | _ => false end
-  | _ => false
-  end.
-Example C02_witness : C02_demo = true.
+(* non-vacuity:   a($X) :- n($X), !, e($X).   a(9).   n(1). n(2). n(3).   e(2). e(1).   |- a($A)
+   with the cut: $A = 1 only (the first n; not 2, although e(2) holds; not 9);
+   without it:   $A = 1, 2, 9 *)
+Definition C02once_at (c : N) : term := TAtom [c].
+Definition C02once_X : term := TVar 0 [36; 88].
+Definition C02once_A : term := TVar 1 [36; 65].
+Definition C02once_fact (p : N) (i : Z) : rule := mkRule (TComplex [C02once_at p; TInt i]) GNil.
+Definition C02once_kb (withcut : bool) : kbase :=
+  [([97; 47; 49], [mkRule (TComplex [C02once_at 97; C02once_X])
+                     (GOp OAnd (GCall (TComplex [C02once_at 110; C02once_X])
+                                :: (if withcut then [GBip n_cut None] else [])
+                                ++ [GCall (TComplex [C02once_at 101; C02once_X])]));
+                   C02once_fact 97 9]);
+   ([110; 47; 49], [C02once_fact 110 1; C02once_fact 110 2; C02once_fact 110 3]);
+   ([101; 47; 49], [C02once_fact 101 2; C02once_fact 101 1])].
+Definition C02once_q : term := TComplex [C02once_at 97; C02once_A].
+Definition C02once_w : world := mkWorld 1 false None [].
+Definition C02once_vals (r : res (list subst * world)) : list (res (option term)) :=
+  match r with Ok (l, _) => map (get_ground_term 20 C02once_A) l | _ => [] end.
+
+Example C02once_with_cut :
+  C02once_vals (canswers (C02once_kb true) 50 60 C02once_q C02once_w) = [Ok (Some (TInt 1))].
+Proof. vm_compute. reflexivity. Qed.
+Example C02once_without_cut :
+  C02once_vals (canswers (C02once_kb false) 50 60 C02once_q C02once_w)
+  = [Ok (Some (TInt 1)); Ok (Some (TInt 2)); Ok (Some (TInt 9))].
 Proof. vm_compute. reflexivity. Qed.
 
-Check C02_cut_commits : forall kb bf fuel nd w nd' r w',
-  next kb bf fuel nd w = Ok (nd', r, true, w') -> node_nobt nd' = true.
+(* the hypotheses of C02_cut_commits_the_call_reference hold for clause 0 of a/1, called with two
+   clauses to consult; the first answer of n($X) is $X = 1; the call returns the one answer of
+   e($X) from there, signal Go, and with n' = 1 (no second clause) returns the same *)
+Definition C02once_demo : bool :=
+  let kb := C02once_kb true in
+  let key := [97; 47; 49] in
+  let kall : ckont := fun s w _ => Ok ([s], w, Go) in
+  let is1 (s : subst) := match get_ground_term 20 C02once_A s with Ok (Some (TInt 1)) => true | _ => false end in
+  match get_rule kb key 0 (next_id C02once_w) with
+  | Ok (rl, ctr) =>
+      match unify 50 (r_head rl) C02once_q [], r_body rl with
+      | Ok (Some s'), GOp OAnd (g1 :: GBip c None :: rest) =>
+          str_eqb c n_cut && cutfree g1 &&
+          match csolve kb 50 39 g1 s' (w_set_id C02once_w ctr) halt1,
+                cclauses kb 50 40 C02once_q [] key 0 2 C02once_w kall,
+                cclauses kb 50 40 C02once_q [] key 0 1 C02once_w kall with
+          | Ok ([s1], w2, Halt), Ok ([a], w', Go), Ok ([b], w'', Go) =>
+              match and_then kb 50 39 rest s1 w2 (kbump kall) with
+              | Ok ([a'], _, sg0) =>
+                  is1 s1 && is1 a && is1 b && is1 a' &&
+                  match leave_call (join0 sg0) with Go => true | _ => false end
+              | _ => false
+              end
+          | _, _, _ => false
+          end
+      | _, _ => false
+      end
+  | _ => false
+  end.
+Example C02once_witness : C02once_demo = true.
+Proof. vm_compute. reflexivity. Qed.
 
-Print Assumptions C02_refines.
-Print Assumptions C02_reference_cut_signals.
-Print Assumptions C02_reference_call_absorbs.
-Print Assumptions C02_cut_commits.
-Print Assumptions C02_nothing_after_the_cut.
-Print Assumptions C02_the_call_is_committed.
-Print Assumptions C02_cut_is_local.
+Print Assumptions C02_first_answer.
+Print Assumptions C02_first_answer_fuel.
+Print Assumptions C02_cut_is_once.
+Print Assumptions C02_cut_commits_the_call_reference.
+Print Assumptions C02_cut_commits_the_call_kb.
